@@ -40,6 +40,27 @@ def full_alphabet():
     return a
 
 
+W_CAP = {'M': ('container', '10 mL', [('water', '5 mL'), ('lipase', '4 U')]),
+         'N': ('container', '10 mL', [('water', '5 mL'), ('nacl', '5 mmol'), ('lipase', '2 U')]),
+         'S': ('container', 'inf L', [('water', '40 mL')])}
+
+
+def capacity_alphabet():
+    """Operations around the capacity of vessels that hold an enzyme (whose volume the cached attribute may lose)."""
+    a = []
+    for o in ('M', 'N'):
+        for what in ('LIQUID', 'water', 'ENZYME', 'SOLID'):
+            a.append({'op': 'remove', 'obj': o, 'what': what})
+        for q in ('7 mL', '10 mL', '12 mL', '9.5 g'):
+            a.append({'op': 'fill_to', 'obj': o, 'solvent': 'water', 'q': q})
+        for q in ('1 mL', '4 mL', '7 mL'):
+            a.append({'op': 'add', 'obj': o, 'what': 'water', 'q': q})
+            a.append(T('S', o, q))
+    a += [{'op': 'dilute', 'obj': 'N', 'solute': 'nacl', 'conc': c, 'solvent': 'water'} for c in ('0.6 M', '0.52 M', '0.4 M')]
+    a += [T('M', 'N', '2 mL'), T('N', 'M', '3 mL'), T('M', 'S', '1 U')]
+    return a
+
+
 # ---- boundary enumeration (refusal oracle) ----------------------------------------------------------------------
 def _num(x):
     return f"{x:.10g}"
@@ -286,6 +307,7 @@ def run(col):
             2 if col.tier == 'quick' else 3, col)
         e1.Explorer(pp, v, e1.W_DEFAULT, e1.seed_history_P(), alphabets.geometry_sweep(), MONS, 'G/S0').run(1, col)
         e1.Explorer(pp, v, e1.W_DEFAULT, e1.seed_history_P(), alphabets.unit_sweep(), MONS, 'U/S0').run(1, col)
+        e1.Explorer(pp, v, W_CAP, [], capacity_alphabet(), MONS, 'K').run(3 if col.tier == 'quick' else 4, col)
 
 
 def replay(case):
